@@ -194,6 +194,39 @@ def build_driver(engine=""):
     return drv
 
 
+def coqchk(pid, timeout=3000):
+    """Thorough tier: re-check the property file and everything it depends on with the independent checker
+    (coqchk -o) and report the axioms of the whole loaded context. Cached on the digest of Props_<pid>.vo
+    (a .vo embeds the digests of its dependencies, so any change below it changes the key)."""
+    vo = os.path.join(COQ, "props", "Props_%s.vo" % pid)
+    key = hashlib.sha256(open(vo, "rb").read()).hexdigest()
+    d = os.path.join(COQ, ".coqchk")
+    os.makedirs(d, exist_ok=True)
+    cp = os.path.join(d, pid + ".json")
+    try:
+        c = json.load(open(cp))
+        if c.get("key") == key:
+            c["cached"] = True
+            return c
+    except (OSError, ValueError):
+        pass
+    t0 = time.time()
+    rc, out = sh("timeout %d coqchk -silent -o -Q . ZB ZB.props.Props_%s" % (timeout, pid), cwd=COQ, timeout=timeout + 30)
+    ok = rc == 0 and "CONTEXT SUMMARY" in out
+    m = re.search(r"CONTEXT SUMMARY\n=+\n(.*)", out, flags=re.S)
+    summary = m.group(1) if m else out[-2000:]
+    sect = {}
+    for name, body in re.findall(r"\* ([^:\n]+):(.*?)(?=\n\* |\Z)", summary, flags=re.S):
+        sect[name.strip()] = " ".join(body.split())
+    res = {"key": key, "ok": ok, "rc": rc, "summary": sect, "seconds": round(time.time() - t0, 1), "cached": False}
+    if not ok:
+        res["tail"] = out[-2000:]
+    else:
+        with open(cp, "w") as f:
+            json.dump(res, f)
+    return res
+
+
 class Model:
     """Batch interface to the extracted model: send all lines, get all answers."""
 
@@ -344,6 +377,19 @@ class Check:
                 for t in theorems:
                     self.oblige("theorem:" + t, True, ass.get(t, ""))
                     self.trusted.append("Print Assumptions %s: %s" % (t, ass.get(t, "?")))
+                if self.tier == "thorough" and not os.environ.get("VERIF_NO_COQCHK"):
+                    r = coqchk(self.pid)
+                    s = r.get("summary", {})
+                    bad = [k for k in ("Constants/Inductives relying on type-in-type",
+                                       "Constants/Inductives relying on unsafe (co)fixpoints",
+                                       "Inductives whose positivity is assumed") if s.get(k, "<none>") != "<none>"]
+                    own = "ZB." in s.get("Axioms", "")
+                    if not r["ok"] or bad or own:
+                        raise BuildBroken("proof", "coqchk rejected Props_%s or found unsafe/own axioms" % self.pid,
+                                          json.dumps(r)[:3000])
+                    self.oblige("coqchk", True, "axioms of the whole loaded context: %s (%.0fs%s)"
+                                % (s.get("Axioms", "?"), r["seconds"], ", cached" if r.get("cached") else ""))
+                    self.trusted.append("coqchk -o ZB.props.Props_%s: Axioms: %s" % (self.pid, s.get("Axioms", "?")))
             except BuildBroken as b:
                 self.broken.append(b)
                 self.oblige("proofs:Props_%s" % self.pid, False, str(b))
